@@ -22,7 +22,7 @@
    the RUNNING timer and, for a basic task, kills the group; ensureBasicTaskKilled never blocks and
    sweeps the group of a reaped child; ControllableTask.Kill refuses without a client and sweeps the
    process group when it returns; the start-up poll of Launch notices a Kill (C17-e) and its
-   wrong-start-state branch sweeps the group and waits (C17-k).  Left as they are (recorded): KILL
+   wrong-start-state and start-up-timeout branches sweep the group and wait (C17-k, C17-m).  Left as they are (recorded): KILL
    before the dial returned (C17-j), KILL of a running hook (C17-b).  A START while the previous
    command still runs is refused (C17-l).
 
@@ -359,9 +359,10 @@ Definition cstep (b : beh) (s : cst) (a : action) : cst * list out :=
              [OSig ToPid KILL9; OSig ToGroup KILL9; OStatus FAILED])   (* pid, then the group; waited for (repair C17-k) *)
        else (s, []))
   | APollTimeout =>
-    poll_guard s
-      (mkC CEnd false false (c_pending s) (c_kpc s) (c_tgt s) (c_proc s) (c_gc s) (c_done s) false,
-       [OStatus FAILED])                                       (* the child is left running *)
+    poll_guard s      (* TASK_FAILED, client dropped, SIGKILL to the group, Wait (repair C17-m) *)
+      (mkC CEnd false false (c_pending s) (c_kpc s) (c_tgt s)
+           (match c_proc s with PRun => PReaped DSig | PZombie d => PReaped d | x => x end) false (c_done s) false,
+       [OStatus FAILED; OSig ToGroup KILL9])
   | AExit _ =>
     match c_phase s, c_proc s with
     | CNone, _ => (s, [])
@@ -436,7 +437,8 @@ Fixpoint waited (t : list out) : N :=
 Inductive kind := KBasic | KHook | KCtl.
 
 Inductive hact :=
-| HLaunch | HTimer | HReq (r : req) | HExit | HKill | HSettle | HListen | HReady.
+| HLaunch | HTimer | HReq (r : req) | HExit | HKill | HSettle | HListen | HReady
+| HStarve.      (* the task never becomes ready: the dial resp. the start-up poll times out *)
 
 (* eager reaping: every zombie is reaped (in index order) *)
 Fixpoint reap_all (s : bst) (n : nat) (i : nat) : bst * list out :=
@@ -529,6 +531,13 @@ Definition chstep (b : beh) (s : cst) (h : hact) : cst * list out :=
                  let '(s2, o2) := cstep b s1 APollTick in (s2, o1 ++ o2)
     | HReady => if bh_bad_start b then cstep b s APollBad else cstep b s APollReady
     | HSettle => csettle b 12 s
+    | HStarve =>
+      match c_phase s with
+      | CDial => let '(s1, o1) := cstep b s ADialTimeout in      (* then its escalation runs to the end *)
+                 let '(s2, o2) := csettle b 12 s1 in (s2, o1 ++ o2)
+      | CPoll => cstep b s APollTimeout
+      | _ => (s, [])
+      end
     end in
   let '(s2, o2) := cquick b 4 s1 in (s2, o1 ++ o2).
 
@@ -827,6 +836,9 @@ Definition mon17 (c : c17_case) : N :=
   else if negb ctl && killed && (mo_main_alive o || mo_gc_alive o) then
     if basic then (if double_start false l then 22 else 4) else 18           (* KILL left the child running *)
   else if ctl && killed && negb (before_first is_listen is_kill l) && mo_main_alive o then 20   (* KILL before the dial: refused *)
+  else if ctl && killed && existsb is_settle (from_first_kill l) && mo_main_alive o &&
+          existsb (status_eqb FAILED) (firstn (N.to_nat (mo_before_kill o)) sts) &&
+          negb (existsb (status_eqb RUNNING) (firstn (N.to_nat (mo_before_kill o)) sts)) then 23   (* failed at start-up, left running *)
   else if ctl && killed && existsb is_settle (from_first_kill l) && mo_main_alive o then 8
   else if ctl && killed && existsb is_settle (from_first_kill l) && mo_gc_alive o &&
           negb (existsb terminal (firstn (N.to_nat (mo_before_kill o)) sts)) then 7
